@@ -1,7 +1,7 @@
 """Per-property configuration: which binary/flavour, how many cases, gates, evidence text."""
 
 RUNNER_TUS = {
-    'runner': ['rc_driver.cpp', 'pbt_movegen.cpp', 'pbt_position.cpp', 'pbt_moves.cpp', 'exh_tables.cpp', 'pbt_eval.cpp', 'pbt_book.cpp', 'pbt_search.cpp'],
+    'runner': ['rc_driver.cpp', 'pbt_movegen.cpp', 'pbt_position.cpp', 'pbt_moves.cpp', 'exh_tables.cpp', 'pbt_eval.cpp', 'pbt_book.cpp', 'pbt_search.cpp', 'sched_uci.cpp'],
 }
 
 ORACLE_ASSUMPTION = ('ref/refchess.h (independent mailbox rules oracle) is correct; it is validated on every run by '
@@ -260,6 +260,22 @@ PROPS['C09'] = dict(
     assumptions=['depth-limited searches that exceed the visit cap are counted as inconclusive'],
     quick=dict(cases=70, shards=16, scale=4, gates={'c09:depth_above_internal_maximum': 100, 'c09:searchmoves_on_warmed_table': 80, 'c09:time_limited': 200, 'c09:single_legal_move_root': 5}, min_nontrivial=300),
     thorough=dict(cases=2000, shards=16, scale=4, min_nontrivial=10000),
+)
+
+PROPS['C06'] = dict(
+    level='exploration', engine='schedule enumerator + ThreadSanitizer',
+    technique='generated schedules with a harness-owned scheduler (search thread parked at hook points, stop delivered there, node-count bound on bestmove) + ThreadSanitizer on free-running generated sessions',
+    level_text=('Deterministic half: an in-process Uci::loop on a reader thread (std::cin/std::cout replaced by harness stream buffers); for each generated (position, go form, park point) the search thread is parked at '
+                'thread start / go entry / after init / after the flag reset / node visit k / iteration end / before bestmove, the controller sends stop + isready, requires readyok while the search exists, releases the thread and requires the single bestmove '
+                'within 200,000 further node visits (a node-count bound, not a wall-clock bound). Race half: the same kind of sessions free-running under ThreadSanitizer; any report whose stack touches Search::stop / stop_command is a violation.'),
+    level_note='Only interleavings expressible through the hook points are explored; wall-clock waits are safety nets (expiry = inconclusive, counted), never the oracle. Other ThreadSanitizer reports are listed in evidence but are not violations of this property.',
+    rule='evaluations = schedules executed. Non-trivial = distinct (park point, k, position, go form) where stop was delivered to a parked search thread or after the search had finished; race-half sessions are reported under coverage.race_half.',
+    assumptions=['the hook callback runs on the search thread at the documented points (engine/verif_hooks.h)'],
+    run_fn='run_c06', replay_fn='replay_c06',
+    quick=dict(cases=18, shards=16, scale=3, race_shards=4, race_cases=4, race_min_sessions=12,
+               gates={'c06:stop_delivered_at_thread_start': 10, 'c06:stop_delivered_at_go_entry': 10, 'c06:stop_delivered_at_go_after_init': 10, 'c06:stop_delivered_at_go_after_reset': 10,
+                      'c06:stop_delivered_at_node_visit': 40, 'c06:stop_delivered_at_iteration_end': 10, 'c06:stop_delivered_at_before_bestmove': 5}, min_nontrivial=150),
+    thorough=dict(cases=400, shards=16, scale=3, race_shards=16, race_cases=40, race_min_sessions=400, min_nontrivial=3000),
 )
 
 HOOK_COMMITS = ['2ee17ca']
